@@ -420,15 +420,25 @@ func RunC13(run *vk.Run) {
 	})
 	// one request that names several release directories (Context.VCSs, the documented transition setup):
 	// after a successful run every one of them maps the digest to a written file
-	for _, nOw := range [][2]int{{2, 0}, {3, 0}, {2, 1}, {3, 1}} {
-		n, ow := nOw[0], nOw[1] == 1
+	for _, nOw := range [][4]int{{2, 0, 0, 0}, {3, 0, 0, 0}, {2, 1, 0, 0}, {3, 1, 0, 0}, {2, 0, 1, 1}, {3, 0, 1, 1}, {3, 0, 0, 1}} {
+		// n directories; overwrite; --keep_going; taken: the first directory already holds another image
+		// under the name (without overwrite permission it refuses the run)
+		n, ow, kg, taken := nOw[0], nOw[1] == 1, nOw[2] == 1, nOw[3] == 1
 		names, imgs := []string{"a", "b"}, []string{"i1", "i2"}
 		// the directories start from different states: empty, or already holding another image as "b"
 		var worlds []*World
+		var inits []map[string][]byte
 		var vcss []endorse.VersionControl
 		for k := 0; k < n; k++ {
 			head := map[string][]byte{}
-			if k%2 == 1 {
+			if taken && k == 0 {
+				w0, ret, msg := runEndorse(head, poolImage("i2"), "a", false, false, false)
+				if ret != "ok" {
+					run.Infra(fmt.Errorf("two-directories fixture: %s %s", ret, msg))
+					return
+				}
+				head = w0.Head
+			} else if k%2 == 1 {
 				w0, ret, msg := runEndorse(head, poolImage("i2"), "b", false, false, false)
 				if ret != "ok" {
 					run.Infra(fmt.Errorf("two-directories fixture: %s %s", ret, msg))
@@ -438,6 +448,7 @@ func RunC13(run *vk.Run) {
 			}
 			w := &World{Root: root, OutDir: outDir, Head: copyMap(head), D: passDecider{}}
 			worlds = append(worlds, w)
+			inits = append(inits, copyMap(head))
 			vcss = append(vcss, w)
 		}
 		ca, signer, err := fx.DevAuthority()
@@ -454,22 +465,22 @@ func RunC13(run *vk.Run) {
 					ret, msg = "panic", fmt.Sprint(r)
 				}
 			}()
-			if err := endorse.VirtualFirmware(endorse.NewContext(fx.Ctx(kc, ow, false), ectx)); err != nil {
+			if err := endorse.VirtualFirmware(endorse.NewContext(fx.Ctx(kc, ow, kg), ectx)); err != nil {
 				ret, msg = "err", err.Error()
 			}
 		}()
-		if ret != "ok" {
+		if ret != "ok" && !taken {
 			// nothing in these directories stands in the way of the run
 			run.Violation("several-directories-refused", fmt.Sprintf("one run over %d release directories none of which holds the name or the digest (overwrite %v) fails: %s %s", n, ow, ret, msg), nil)
 		}
 		for k, w := range worlds {
-			from := map[string][]byte{}
+			from := inits[k]
 			_, _, fs := checkStep(from, w, ret, mAct{Op: "endorse", Img: "i1", Name: "a", Ow: ow}, names, imgs)
 			for _, f := range fs {
 				run.Violation(f.Key+":several-directories", fmt.Sprintf("one run over %d release directories (returned %s %s), directory %d: %s", n, ret, msg, k+1, f.What), map[string]any{"directories": n, "directory": k + 1, "returned": ret})
 			}
 		}
-		run.Case(fmt.Sprintf("several-directories:%d:%v", n, ow), true)
+		run.Case(fmt.Sprintf("several-directories:%d:%v:%v:%v", n, ow, kg, taken), true)
 	}
 	run.Exhaustive = true
 	run.Rule = "every transition of the reachable closure of ManifestIndex.tla (pool of 3x3 quick / 4x4 thorough images x names x overwrite x keep-going, plus dry runs and snapshot runs) is materialised as a real version-control head, one real endorse.VirtualFirmware run is made and the C13 predicates are evaluated on the projected result; plus seeded random walks over a 7x6 pool on the in-memory backend and on localnonvcs with real files; non-trivial = source manifest non-empty"
